@@ -24,6 +24,9 @@ func runC10(p *Prog, r *Report) {
 	e4CondWaits(p, r, "C10.1/cond")
 	r.Floor("C10.1/cond", "e4c.cond_waits", 4)
 	c10Anchored(p, r)
+	pipeIDPairing(p, r, "C10.7/id-pairing")
+	r.Describe("C10.8/listen-vs-close", "Listen and Close of one listener are serialised: no address stays bound after Close")
+	coreListenAtomic(p, r, "C10.8/listen-vs-close")
 }
 
 func c10Anchored(p *Prog, r *Report) {
@@ -198,4 +201,23 @@ func c10Anchored(p *Prog, r *Report) {
 
 	r.Describe("C10.8/handshaker", "closing a listener closes every connection still handshaking or waiting to be accepted; a handshake that completes after Close is closed by its worker")
 	handshakerRules(p, r, "C10.8/handshaker")
+}
+
+// coreListenAtomic: core listener.Listen tests closed and calls the transport's Listen in
+// one critical section (D15): otherwise Close can run in between, close the still unbound
+// transport listener, and Listen then binds and serves on a closed listener.
+func coreListenAtomic(p *Prog, r *Report, R string) {
+	q := NewQ(p, r)
+	f := q.Fn(R, "internal/core", "listener", "Listen")
+	if !f.OK() {
+		return
+	}
+	tl := f.Ev("call", "TranListener.Listen")
+	ok := len(tl) == 1 && tl.AllGuarded("!recv.closed") && tl.AllHeld("internal/core.listener.Mutex") && closedReadInSameSection(p, f.fn, tl[0].In)
+	r.Check(ok, R, "listener.Listen/closed-test-and-bind-atomic", tl.Pos(p), "closed is tested in the critical section that calls the transport's Listen", "core listener.Listen calls the transport's Listen outside the critical section that tested closed: a concurrent Close slips in between, and the address is then bound and served by a closed listener (both calls return nil)")
+	cl := q.Fn(R, "internal/core", "listener", "Close")
+	if cl.OK() {
+		tc := cl.Ev("call", "TranListener.Close")
+		r.Check(len(tc) == 1 && tc.AllHeld("internal/core.listener.Mutex"), R, "listener.Close/under-lock", tc.Pos(p), "the transport listener is closed under the same lock", "core listener.Close closes the transport listener outside the lock that Listen holds")
+	}
 }
